@@ -44,7 +44,8 @@ struct ScriptStream : public IStream {
     int close() override { return 0; }
     int shutdown(ShutdownHow) override { shut = true; cv_data.notify_all(); return 0; }
     uint64_t timeout() const override { return tmo; }
-    void timeout(uint64_t t) override { tmo = t; }
+    bool ignore_timeout = false;          // behave like IStream's default (and the in-memory streams of the rpc tests): timeout() is a no-op
+    void timeout(uint64_t t) override { if (!ignore_timeout) tmo = t; }
     ssize_t read(void* buf, size_t count) override {
         size_t got = 0;
         Timeout to(tmo);
@@ -173,7 +174,13 @@ struct H {
         Timeout to = tmo < 0 ? Timeout() : Timeout((uint64_t)tmo);
         int ret; std::string got; bool have = false;
         if (rmode == 2) {
-            IOVector riov;
+            // the response vector allocates zero-filled memory (what a fresh heap usually hands out): bytes the stub
+            // never received then read as an empty response instead of sanitizer fill, so a truncated reply that is
+            // reported as success is visible as "response of call 0"
+            struct ZA { static int alloc(void*, IOAlloc::RangeSize sz, void** p) { *p = calloc(1, (size_t)sz.max ? (size_t)sz.max : 1); return *p ? sz.max : -1; }
+                        static int dealloc(void*, void* p) { free(p); return 0; } };
+            IOAlloc za; za.allocate.bind(nullptr, &ZA::alloc); za.deallocate.bind(nullptr, &ZA::dealloc);
+            IOVector riov(za);
             auto* resp = stub->call<EchoOp>(req, riov, to);
             ret = resp ? 0 : -1;
             if (resp) { have = true; if (resp->id != my_id) ctl.violation("call " + std::to_string(my_id) + " received the response of call " + std::to_string(resp->id)); got.assign((const char*)resp->buf.addr(), resp->buf.size()); }
@@ -245,6 +252,7 @@ Outcome run_case(const Case& c) {
     h.C.L.vcpu_setup = [&](int) {
         h.stream.reset(new ScriptStream(&h));
         if (fault_kind) { h.stream->fault_at = fault_at; h.stream->fault_kind = fault_kind; }
+        h.stream->ignore_timeout = c.cfg.size() > 7 && c.cfg[7] != 0;
         h.stub = rpc::new_rpc_stub(h.stream.get(), false);
     };
     h.C.L.vcpu_teardown = [&](int) {
@@ -279,13 +287,35 @@ rc::Gen<Case> gen_case(const vf::Options& opt) {
         long style = *rc::gen::weightedOneOf<long>({{4, rc::gen::just<long>(0)}, {3, rc::gen::just<long>(1)}, {2, rc::gen::just<long>(2)}});   // 0 clean, 1 timeouts, 2 faults/bad tags
         if (excl_follower_timeout && style == 1) style = 0;
         long fault_kind = style == 2 && *vf::range(0, 2) == 0 ? *vf::range(1, 2) : 0;
-        c.cfg = {1, 0, 0, 0, 0, *vf::range(0, 600), fault_kind};
+        // a stream whose reads are not bounded by timeout() only when every request is answered (otherwise the reader would legitimately block for ever)
+        c.cfg = {1, 0, 0, 0, 0, *vf::range(0, 600), fault_kind, style != 2 ? *vf::range(0, 1) : 0};
         for (long i = 0; i < na; i++) c.S("actor").push_back({0, 0});
         if (style == 1 && na >= 2 && *vf::range(0, 1)) {
             // "straddle" family: every reply's header arrives after d and its body h later; the first caller waits
             // without timeout (it becomes the reader), the others give up in between
             long d = *vf::range(20, 400), hgap = *vf::range(100, 3000);
             long total = 0;
+            if (na >= 3 && *vf::range(0, 1)) {
+                // variant: the first caller (no timeout) is answered last, so it stays the reader while the others'
+                // replies arrive one after the other (follower k's header at about d + (k-1)*hgap, its body hgap later).
+                // One follower F gives up inside its own reply (the reader is in its buffers), a later-answered
+                // follower G gives up shortly afterwards (its return notifies the waiters); the rest wait it out.
+                long nb = *rc::gen::weightedOneOf<long>({{2, rc::gen::just<long>(3)}, {1, rc::gen::just<long>((long)na)}});
+                long f = *vf::range(1, nb - 2), g = *vf::range(f + 1, nb - 1);
+                long win = d + (f - 1) * hgap;
+                c.S("a0").push_back({OP_CALL, *vf::range(1, 64), -1, *vf::range(0, 2), *vf::range(1, 128)});
+                for (long i = 1; i < nb; i++) {
+                    auto& prog = c.S("a" + std::to_string(i));
+                    prog.push_back({OP_SLEEP, i * 3});
+                    long tmo = i == f ? win + *vf::range(10, hgap / 2) : i == g ? win + *vf::range(hgap / 2 + 1, hgap - 10)
+                             : *rc::gen::weightedOneOf<long>({{2, rc::gen::just<long>((long)(d + (nb + 3) * hgap + 20000))}, {1, rc::gen::map(vf::range(0, nb * hgap), [d](long x) { return d + x; })}});
+                    prog.push_back({OP_CALL, *vf::range(1, 64), std::max<long>(1, tmo - i * 3), *vf::range(0, 2), *vf::range(1, 128)});
+                }
+                c.S("plan").push_back({d + (nb + 2) * hgap + 5000, *vf::range(0, 50), 0, 0});
+                for (long k = 1; k < nb; k++) c.S("plan").push_back({d, hgap, 0, 0});
+                c.S("sched") = *gen_schedule(6);
+                return c;
+            }
             for (long i = 0; i < na; i++) {
                 auto& prog = c.S("a" + std::to_string(i));
                 if (i) prog.push_back({OP_SLEEP, *vf::range(1, 15)});
@@ -338,7 +368,7 @@ int main(int argc, char** argv) {
     h.run = run_case;
     h.desc = [](const Case& c) {
         std::ostringstream o;
-        o << "stream fault: " << (c.cfg[6] == 0 ? "none" : c.cfg[6] == 1 ? "error" : "EOF") << " after " << c.cfg[5] << " bytes; server plans (delay, header->body delay, tag mode, frag delay, frags...):";
+        o << "stream " << (c.cfg.size() > 7 && c.cfg[7] ? "ignores timeout() (IStream default)" : "honours timeout()") << "; fault: " << (c.cfg[6] == 0 ? "none" : c.cfg[6] == 1 ? "error" : "EOF") << " after " << c.cfg[5] << " bytes; server plans (delay, header->body delay, tag mode, frag delay, frags...):";
         for (auto& r : c.S("plan")) { o << " ["; for (long v : r) o << v << " "; o << "]"; }
         return o.str() + "\n" + describe_common(c, opname);
     };
